@@ -219,6 +219,9 @@ pub struct TaskCtx<'a> {
     pub full_nf: Option<&'a str>,
     pub oracles: u32,
     pub range: Option<(Option<usize>, Option<usize>)>,
+    /// width of the transition being judged, and whether it is the representative of "every width >= U"
+    pub cur_width: std::cell::Cell<usize>,
+    pub is_wide: std::cell::Cell<bool>,
 }
 
 fn first_diff<T: PartialEq + std::fmt::Debug>(a: &[T], b: &[T]) -> String {
@@ -275,7 +278,7 @@ fn census_oracle(t: &TaskCtx, oi: &Info, st: &mut Stats, f: &mut Vec<(String, St
 pub fn check_output(t: &TaskCtx, out: &str, st: &mut Stats) -> Vec<(String, String)> {
     let mut f: Vec<(String, String)> = Vec::new();
     let syn = t.cfg.syn;
-    let need_ast = t.oracles & (O_OPTS | O_SORT | O_IGN) != 0;
+    let need_ast = t.oracles & (O_OPTS | O_SORT | O_IGN | O_RANGE) != 0;
     let oi = analyse(out, syn, need_ast);
     let parse_ok = oi.parses && oi.lex_ok;
     if t.oracles & O_PARSE != 0 {
@@ -504,7 +507,7 @@ fn record(
 
 pub fn run_task(plan: &Plan, case: &Case, cfg: &Cfg, st: &mut Stats, fails: &mut Vec<Failure>) {
     st.tasks += 1;
-    let need_ast = plan.oracles & (O_OPTS | O_SORT | O_IGN) != 0;
+    let need_ast = plan.oracles & (O_OPTS | O_SORT | O_IGN | O_RANGE) != 0;
     let input = analyse(&case.text, cfg.syn, need_ast);
     if !input.parses {
         // the family does not claim validity under every syntax; count and skip (never a verdict) —
@@ -552,7 +555,16 @@ pub fn run_task(plan: &Plan, case: &Case, cfg: &Cfg, st: &mut Stats, fails: &mut
     // re-index `seen_fail` relative to this task only
     let mut task_fails: Vec<Failure> = Vec::new();
     for range in ranges {
-        let tctx = TaskCtx { case, cfg, input: &input, full_nf: full_nf_owned.as_deref(), oracles: plan.oracles, range };
+        let tctx = TaskCtx {
+            case,
+            cfg,
+            input: &input,
+            full_nf: full_nf_owned.as_deref(),
+            oracles: plan.oracles,
+            range,
+            cur_width: std::cell::Cell::new(0),
+            is_wide: std::cell::Cell::new(false),
+        };
         // width set
         let (o_inf, u) = probe_u(&case.text, cfg, range);
         st.transitions += 1;
@@ -623,6 +635,8 @@ pub fn run_task(plan: &Plan, case: &Case, cfg: &Cfg, st: &mut Stats, fails: &mut
                     st.nontrivial += 1;
                 }
                 *st.layouts.entry(layout_sig(&out)).or_insert(0) += 1;
+                tctx.cur_width.set(w);
+                tctx.is_wide.set(w >= u.max(1));
                 for (class, detail) in check_output(&tctx, &out, st) {
                     record(&mut task_fails, &mut seen_fail, &class, case, cfg, w, range, detail, &out);
                 }
